@@ -134,6 +134,10 @@ class C09(Check):
                               delays=delays, hier=rng.random() < 0.2,
                               # multi-operator nodes: the delayed source variable is also read by a second operator of its node
                               readouts=(0.5, 0.0) if rng.random() < 0.3 else None)
+        if stratum in ('S-alldelayed', 'S-mixed', 'S-hub') and rng.random() < 0.25:
+            # feature interaction: an extrinsic input into a circuit with ring-buffer delays (run mode, one sample per step)
+            cfg['input'] = {'amp': rng.choice([0.5, 1.0, -0.25]), 'pick': rng.random()}
+            cfg['mode'] = 'run'
         if stratum == 'S-fortran':
             cfg.update({'backend': 'fortran', 'vectorize': False, 'mode': 'run', 'solver': 'euler', 'prelude': None,
                         'sparseness': None})
@@ -309,6 +313,7 @@ class C09(Check):
             res['discard'] = f'construction failed: {type(e).__name__}'
             return res
         rec = Recorder()
+        ext_in = {}
         per = 2 if cfg['solver'] == 'heun' else 1
         pre = None
         if cfg.get('prelude'):
@@ -345,6 +350,13 @@ class C09(Check):
                 if cfg.get('backend'):
                     kw['backend'] = cfg['backend']
                     bump(cfg['backend'])
+                if cfg.get('input') and not pop and cfg['solver'] == 'euler':
+                    cands = sorted((k_, i_) for k_, i_ in net.inst.items() if models.LIB[i_['lib']]['in'])
+                    (inode, iop), iinst = cands[int(cfg['input']['pick'] * len(cands)) % len(cands)]
+                    u_ext = cfg['input']['amp'] * (1.0 + (np.arange(steps) % 17) / 16.0 + np.arange(steps) / 1024.0)
+                    kw['inputs'] = {f"{inode}/{iop}/{models.LIB[iinst['lib']]['in']}": u_ext}
+                    ext_in[(inode, iop)] = u_ext
+                    bump('extrinsic_input')
                 c.run(T, dt, outputs=outputs, solver=cfg['solver'], vectorize=cfg['vectorize'], float_precision='float64',
                       decorator=rec, verbose=False, **skw, **kw)
             else:
@@ -464,7 +476,7 @@ class C09(Check):
                             return res
                         continue
                     invar = f"{node}/{opn}/{models.LIB[net.inst[(node, opn)]['lib']]['in']}"
-                    want = 0.0
+                    want = float(ext_in[(node, opn)][k]) if (node, opn) in ext_in else 0.0
                     for s, tt, w, nd in edges:
                         if tt != invar:
                             continue
